@@ -189,7 +189,21 @@ pub const QB: u8 = 1;
 pub const QZ: u8 = 2;
 pub const QF: u8 = 3;
 
+thread_local! {
+    static LONG_NAMES: std::cell::Cell<bool> = const { std::cell::Cell::new(false) };
+}
+
+/// While set (per thread), queue "a" carries a name longer than a block (the maximum, 65535
+/// bytes, in the real geometry): its control entries span several frames.
+pub fn set_long_names(on: bool) {
+    LONG_NAMES.with(|l| l.set(on));
+}
+
 pub fn default_names() -> Vec<String> {
+    if LONG_NAMES.with(|l| l.get()) {
+        let long = if TINY { "N".repeat(BLOCK + 6) } else { "N".repeat(65535) };
+        return vec![long, "b".into(), "zz".into(), "f".into()];
+    }
     vec!["a".into(), "b".into(), "zz".into(), "f".into()]
 }
 
